@@ -208,19 +208,19 @@ const agg2CmpBodyRaw = `// check to see if anything needs to be created
 	case same && safe && reuse == nil:
 		{{if .VV -}}
 		if swap{
-			reuse = NewDense(b.Dtype(), b.Shape().Clone(), WithEngine(e))
+			reuse = newDenseLike(e, b.Dtype(), b)
 		} else{
-			reuse = NewDense(a.Dtype(), a.Shape().Clone(), WithEngine(e))
+			reuse = newDenseLike(e, a.Dtype(), a)
 		}
 		{{else -}}
-		reuse = NewDense(a.Dtype(), a.Shape().Clone(), WithEngine(e))
+		reuse = newDenseLike(e, a.Dtype(), a)
 		{{end -}}
 		dataReuse = reuse.hdr()
 		if useIter{
 		iit = IteratorFromDense(reuse)
 		}
 	case !same && safe && reuse == nil:
-		reuse = NewDense(Bool, a.Shape().Clone(), WithEngine(e))
+		reuse = newDenseLike(e, Bool, a)
 		dataReuse =  reuse.hdr()
 		if useIter{
 		iit = IteratorFromDense(reuse)
@@ -327,12 +327,12 @@ const agg2MinMaxBodyRaw = `// check to see if anything needs to be created
 	if safe && reuse == nil{
 		{{if .VV -}}
 		if swap{
-			reuse = NewDense(b.Dtype(), b.Shape().Clone(), WithEngine(e))
+			reuse = newDenseLike(e, b.Dtype(), b)
 		} else{
-			reuse = NewDense(a.Dtype(), a.Shape().Clone(), WithEngine(e))
+			reuse = newDenseLike(e, a.Dtype(), a)
 		}
 		{{else -}}
-		reuse = NewDense(a.Dtype(), a.Shape().Clone(), WithEngine(e))
+		reuse = newDenseLike(e, a.Dtype(), a)
 		{{end -}}
 		dataReuse = reuse.hdr()
 		if useIter{
